@@ -4,7 +4,7 @@ type t = A of string | S of string | L of t list
 exception Parse of string
 
 let parse (s : string) : t =
-  let n = String.length s in
+  let n = Stdlib.String.length s in
   let pos = ref 0 in
   let peek () = if !pos < n then Some s.[!pos] else None in
   let rec skip () = match peek () with
@@ -29,7 +29,7 @@ let parse (s : string) : t =
         | None -> raise (Parse "unclosed")
         | _ -> items := value () :: !items; loop () in
       loop ();
-      L (List.rev !items)
+      L (Stdlib.List.rev !items)
     | Some '"' ->
       incr pos;
       let b = Buffer.create 16 in
@@ -58,7 +58,7 @@ let parse (s : string) : t =
         | Some (' ' | '\t' | '\n' | '\r' | '(' | ')') | None -> ()
         | _ -> incr pos; loop () in
       loop ();
-      A (String.sub s start (!pos - start)) in
+      A (Stdlib.String.sub s start (!pos - start)) in
   let v = value () in
   skip ();
   if !pos <> n then raise (Parse "trailing");
@@ -67,4 +67,4 @@ let parse (s : string) : t =
 let rec to_string = function
   | A a -> a
   | S s -> Printf.sprintf "%S" s
-  | L l -> "(" ^ String.concat " " (List.map to_string l) ^ ")"
+  | L l -> "(" ^ Stdlib.String.concat " " (Stdlib.List.map to_string l) ^ ")"
